@@ -176,6 +176,56 @@ func runC13(c *Ctx) {
 		}
 	})
 
+	c.rule("C13.T2", "one address, one record: the parser that builds the ban key's IP network and the encoder that serialises it split IPv4 from IPv6 with the same predicates (sibling agreement: an IPv4-mapped IPv6 spelling must be treated as the 4-byte address by both, otherwise mask and address lengths disagree and the spelling gets its own record); the parsed network is ip.Mask(mask) of the default single-address mask", func() {
+		classifiers := func(fn *ssa.Function) []string {
+			set := map[string]bool{}
+			ir.Instrs(fn, func(in ssa.Instruction) {
+				cc := ir.CallOf(in)
+				if cc == nil {
+					return
+				}
+				cal := ir.Resolve(cc)
+				if cal.Func == nil || cal.Func.Pkg() == nil {
+					return
+				}
+				pk := cal.Func.Pkg().Path()
+				if pk != "net" && pk != "net/netip" {
+					return
+				}
+				switch cal.Func.Name() {
+				case "To4", "To16", "Is4", "Is6", "Is4In6", "Unmap", "As4", "As16":
+					set[pk+"."+cal.Func.Name()] = true
+				}
+			})
+			var out []string
+			for k := range set {
+				out = append(out, k)
+			}
+			sort.Strings(out)
+			return out
+		}
+		pf := c.fn("banman.ParseIPNet")
+		ef := c.fn("banman.encodeIPNet")
+		a, b := classifiers(pf), classifiers(ef)
+		c.verdict(len(a) > 0 && join(a) == join(b), "banman.ParseIPNet / banman.encodeIPNet | same IPv4/IPv6 classification predicates", c.P.Pos(pf.Pos()), "both classify with "+join(a), fmt.Sprintf("ParseIPNet classifies addresses with {%s} but encodeIPNet with {%s}: a spelling the two treat differently (e.g. an IPv4-mapped IPv6 address) is stored under its own key", join(a), join(b)), a...)
+		// To4 is consulted before To16 in both (an IPv4 address also has a 16-byte form)
+		to4 := c.method("net", "IP", "To4")
+		to16 := c.method("net", "IP", "To16")
+		for _, fn := range []*ssa.Function{pf, ef} {
+			c.mustPrecede(fn, callTo(to4), "ip.To4()", callTo(to16), "ip.To16()", 1)
+		}
+		// result: &net.IPNet{IP: ip.Mask(mask), Mask: mask}
+		maskM := c.method("net", "IP", "Mask")
+		okMask := false
+		for _, st := range find(pf, storeToField(c.field("net", "IPNet", "IP"))) {
+			okMask = valIsCallTo(maskM)(st.(*ssa.Store).Val)
+		}
+		c.verdict(okMask, c.nm(pf)+" | network address = ip.Mask(mask)", c.P.Pos(pf.Pos()), "host bits cleared by the mask", "ParseIPNet no longer normalises the address with ip.Mask(mask)")
+		// port stripped before parsing
+		shp := c.funcObj("net", "SplitHostPort")
+		c.verdict(len(find(pf, callTo(shp))) == 1, c.nm(pf)+" | an optional port is split off before parsing", c.P.Pos(pf.Pos()), "net.SplitHostPort", "ParseIPNet no longer strips the port: host:port and host would be different records")
+	})
+
 	c.rule("C13.G1", "enforcement: a banned address is never admitted: handleAddPeerMsg registers a peer only if IsBanned(sp.Addr()) is false (else Disconnect); outboundPeerConnected creates/associates the peer only if IsBanned is false; the connection manager's new-address function returns an address only if IsBanned is false", func() {
 		isBanned := c.method("neutrino", "ChainService", "IsBanned")
 		// handleAddPeerMsg
